@@ -394,7 +394,7 @@ def run_grid(lb, progs, route, configs_of, wall, stats, deadline=None):
     for p in progs:
         if route not in p.ref:
             continue
-        if deadline and time.time() > deadline:
+        if deadline and time.time() > deadline and not getattr(p, "always", False):
             stats["left_out_by_time_budget"] += 1
             continue
         for c in configs_of(p):
@@ -572,7 +572,7 @@ def shrink_all(ctx, build, lb, tab, causes, progs, route, wall, stats, max_findi
     of one shrink step go in parallel"""
     for p in progs:
         if p.bad.get(route):
-            if deadline and time.time() > deadline:
+            if deadline and time.time() > deadline and not getattr(p, "always", False):
                 stats["unshrunk_by_time_budget"] += 1
                 p.bad.pop(route, None)
                 continue
@@ -630,7 +630,10 @@ def run_part(ctx, build):
     sample = list(others) if thorough else sorted(rng.sample(others, min(30 - len(prio), len(others))), key=lambda p: p[0])
     gprogs = [ProgState(n, t, e, a) for n, t, e, a in gen]
     cprogs0 = [ProgState(*p) for p in sample]
-    progs = [ProgState(*p) for p in prio] + gprogs + cprogs0
+    pprogs = [ProgState(*p) for p in prio]
+    for p in pprogs:
+        p.always = True        # no stage deadline applies to them: what they show must not depend on machine load
+    progs = pprogs + gprogs + cprogs0
     stats["always_run"] = [p[0] for p in prio]
     stats["programs_run"] = len(progs)
 
